@@ -29,6 +29,7 @@ func VerifH_nbp4() {
 
 	r, stop := nbpHandler4(req, resp)
 	vnd.Assert(r != nil || stop, "C13 a built-in handler returns a nil response only together with stop")
+	vnd.Assert(r != nil || stop, "C01 no handler passes a nil response on to its successors (they would dereference it)")
 
 	vnd.Assert(r == resp, "C17 nbp4 passes the response on")
 	want66 := opt66 != nil && (kind != 2 || vh.Listed(codes, uint8(dhcpv4.OptionTFTPServerName)))
@@ -71,6 +72,7 @@ func VerifH_nbp6() {
 
 	r, stop := nbpHandler6(req, resp)
 	vnd.Assert(r != nil || stop, "C13 a built-in handler returns a nil response only together with stop")
+	vnd.Assert(r != nil || stop, "C01 no handler passes a nil response on to its successors (they would dereference it)")
 
 	vnd.Assert(r == dhcpv6.DHCPv6(resp), "C17 nbp6 passes the response on")
 	nURL, nParam := 0, 0
